@@ -199,13 +199,15 @@ def run(tier, seed, replay=None):
         for got, (want, dsc) in zip(res, op_want):
             if got != want: V.fail("correspondence(model/impl) mode pairs produced by the operator reshape loop", dict(dsc, model=got, impl=want), failing_input=False)
             else: n_op_coq += 1
-    # to_qtt on shapes with modes 1, 2, 3 mixed in (kept as they are) - mode sizes only
-    for N in ([1, 4], [2, 8], [3, 4], [4, 1, 2], [8, 3], [16], [2, 2], [1], [32, 2]):
+    # to_qtt on shapes with modes 1 and 2 mixed in (kept as they are) and with modes that are not powers of two (ShapeMismatch): what the call does, against qtt_call
+    for N in ([1, 4], [2, 8], [3, 4], [4, 1, 2], [8, 3], [16], [2, 2], [1], [32, 2], [6], [4, 5, 2], [12, 2], [2, 1, 1, 8]):
+        xq = solverkit.rand_tt_float(rng, N, solverkit.ranks(rng, len(N), 2), torch.float64)
         try:
-            xq = solverkit.rand_tt_float(rng, N, solverkit.ranks(rng, len(N), 2), torch.float64)
-            qtt_cases.append("qtt_modes %s" % coqrun.nlist(N)); qtt_want.append(([int(v) for v in xq.to_qtt().N], {"op": "to_qtt-shape", "N": N}))
+            got_q = [1] + [int(v) for v in xq.to_qtt().N]
         except Exception as ex:
-            V.fail("to_qtt raises %s on a shape whose modes are 1, 2, 3 or powers of two" % type(ex).__name__, {"N": N, "exc": str(ex)[:200]})
+            got_q = [0]
+            if type(ex).__name__ != "ShapeMismatch": V.fail("to_qtt on a shape with a mode that is not a power of two raises %s (documented: ShapeMismatch)" % type(ex).__name__, {"N": N, "exc": str(ex)[:200]})
+        qtt_cases.append("qtt_call %s" % coqrun.nlist(N)); qtt_want.append((got_q, {"op": "to_qtt-call", "N": N}))
     # to_qtt with the documented mode_size argument (2, 4, 8) on tensors and on square operators: exactly the requested mode sizes, the dense value is
     # the dense reshape (rows and columns of an operator are folded separately)
     rng_q = random.Random(seed + 41)
@@ -234,7 +236,7 @@ def run(tier, seed, replay=None):
     if ok_make and qtt_cases:
         res = coqrun.eval_nat_lists("C10_q", "From TT Require Import Permute.", "", qtt_cases, shard=100)
         for got, (want, dsc) in zip(res, qtt_want):
-            if got != want: V.fail("correspondence(model/impl): mode sizes produced by to_qtt differ from the Coq model", dict(dsc, model=got, impl=want), failing_input=False)
+            if got != want: V.fail("correspondence(model/impl): mode sizes produced by to_qtt differ from the Coq model", dict(dsc, model=got, impl=want), failing_input=dsc.get("op") == "to_qtt-call")
             else: n_qtt_coq += 1
     nviol = V.finish()
     cov = proofcheck.coverage(PID, obl, evaluations=n, distinct_nontrivial=len(dist) + n_coq,
